@@ -22,7 +22,8 @@ NOT proved of it: (1) git locations outside the restricted grammar; URLs read th
 the model's own computation on the concrete text (`UrlNF`, `UrlRead`, `VcsUrlOK`), not by a grammar;
 (2) constraints printed as a disjunction (they do not round-trip at all: `disjunction_not_reparsable`; outside the
 property's domain) — wildcard spellings `==X.*` / `!=X.*` are covered by `dep_roundtrip_registry_wildcard`; (3) dependencies that are
-members of an extra (`in_extras ≠ []`: the `extra == …` clause `to_pep_508` appends); (4) markers outside C13's domain
+members of SEVERAL extras or of one extra and carry a marker of their own (one extra, no own marker:
+`dep_roundtrip_registry_in_extra`); (4) markers outside C13's domain
 (`in` / `not in`, `~=`, `platform_release`); (5) one side condition on the printed text kept as a hypothesis: no ` #` in it
 (`NoComment`; FALSE without it: the known finding `marker-literal-with-blank-hash-cut-as-comment`); that the marker
 text neither starts nor ends with a blank is derived from the printer (`markerEnds_domain`).
@@ -35,6 +36,7 @@ import PoetryVerif.Proofs.DepMarker
 import PoetryVerif.Proofs.DepUrl
 import PoetryVerif.Proofs.DepVcs
 import PoetryVerif.Proofs.DepWildcard
+import PoetryVerif.Proofs.DepExtras
 import PoetryVerif.Proofs.VRangeTextP
 
 set_option linter.unusedSimpArgs false
@@ -441,6 +443,90 @@ example : RegWF exDepM ∧ envPy.extras = some [] ∧ EnvPy envPy 3 8 1 ∧ M.Go
     unfold convertMarkersFor
     rw [h]
     simp [bind, Except.bind, pure, Except.pure, membersIfUnion, mPy, conjPairs, convKey, pvLeafOf, Leaf.name]
+
+/-! ## a registry dependency that is a member of an extra -/
+
+/-- **round trip of a registry dependency that is a member of ONE extra** (`in_extras = [x]`, as `factory.py` records it
+for `[tool.poetry.extras]` / `[project.optional-dependencies]`; no marker of its own): `to_pep_508` appends
+`extra == "x"`; `create_from_pep_508` reads the clause back and the `marker` setter RESTORES THE MEMBERSHIP: the re-parsed
+dependency has the same name, extras, kind, source, the constraint read from the printed tokens, `in_extras = [x]`, is
+optional, and its marker is `extra == "x"` -/
+theorem dep_roundtrip_registry_in_extra (d : Dep) (x : String) (ts : List (List Char)) (hx : ExtraName x)
+    (hkind : d.kind = .registry) (hsrc : d.spec.sourceType = none) (hname : d.spec.name = canonName d.spec.prettyName)
+    (hident : Ident d.spec.prettyName.toList) (hfeats : normFeatures d.spec.features = d.spec.features)
+    (hfi : ∀ f ∈ d.spec.features, Ident f.toList) (hin : d.inExtras = [x]) (hb : CBody d ts)
+    (hany : d.marker.isAny = true) (hpy : d.pythonVersions = "*")
+    (hnc : ∀ t, d.toPep508 = .ok t → NoComment t.toList) :
+    ∃ t, d.toPep508 = .ok t ∧ ∀ d', createFromPep508 t = .ok d' →
+      d'.name = d.name ∧ d'.extras = d.extras ∧ d'.kind = Kind.textual d.kind ∧ sameSource d' d ∧
+      VParser.parseConstraint (ctextOf ts) = .ok d'.constraint ∧
+      d'.inExtras = d.inExtras ∧ d'.optional = true ∧ d'.marker = extraLeaf x := by
+  obtain ⟨sfx, hs, hsl, htok⟩ := hb
+  obtain ⟨gc, hgc, hnest⟩ := extraClause x hx
+  have hxne : (x != "") = true := by
+    have := hx.tok.1
+    simp only [bne_iff_ne, ne_eq]
+    intro e; rw [e] at this; exact this rfl
+  have hbase : d.basePep508Name = .ok (d.spec.completePrettyName ++ sfx) := by
+    simp [Dep.basePep508Name, hkind, hs, bind, Except.bind, pure, Except.pure]
+  have htp : d.toPep508 = .ok (d.spec.completePrettyName ++ sfx ++ " ; " ++ (extraSyn x).text) := by
+    simp [Dep.toPep508, hbase, hany, hpy, hin, joinWith, hxne, hgc, hnest, bind, Except.bind, pure, Except.pure]
+  refine ⟨_, htp, ?_⟩
+  have hlex := extraSyn_lexable x hx
+  have hends := Syn.chars_ends (extraSyn x) hlex
+  have htc : (extraSyn x).text.toList = (extraSyn x).chars := Syn.text_chars _ hlex
+  have hmok : MarkerOK (extraSyn x).text.toList (extraSyn x) := by
+    refine ⟨?_, by rw [String.ofList_toList]; exact parseText_text _ hlex⟩
+    rw [htc]
+    obtain ⟨⟨c, r, hcr, h1, h2⟩, _⟩ := hends
+    rw [hcr]; exact skipWs_nonblank c r h1 h2
+  have hchars : (d.spec.completePrettyName ++ sfx ++ " ; " ++ (extraSyn x).text).toList =
+      d.spec.prettyName.toList ++ extrasText (d.spec.features.map String.toList) ++ specsText ts ++
+        markerText (some (extraSyn x).text.toList) := by
+    simp [Spec.completePrettyName, String.toList_append, featureSuffix_chars, hsl, markerText]
+  have hr := createFromPep508_registry _ _ _ ts (some (extraSyn x).text.toList) (some (extraSyn x)) hchars hident
+    (by intro e he; obtain ⟨f, hf, rfl⟩ := List.mem_map.mp he; exact hfi f hf) htok hmok (hnc _ htp)
+    (by rw [hchars]; exact printed_trimmed _ _ _ _ hident (by intro m hm; cases hm; rw [htc]; exact hends.2))
+  intro d' hd'
+  rw [hr] at hd'
+  -- unfold the rebuild: constraint, marker, registry dependency, marker setter
+  simp only [rebuildRegistry, compactTop_extra x hx, Except.map, String.ofList_toList, map_ofList_toList, bind,
+    Except.bind, pure, Except.pure] at hd'
+  cases hc : VParser.parseConstraint (ctextOf ts) with
+  | error e => simp [hc] at hd'
+  | ok c =>
+    simp only [hc] at hd'
+    cases hm : mkRegistry d.spec.prettyName c d.spec.features with
+    | error e => simp [hm] at hd'
+    | ok d0 =>
+      simp only [hm] at hd'
+      obtain ⟨a1, a2, a3, a4, a5, _⟩ := mkRegistry_fields _ _ _ _ hm
+      have a6 : d0.inExtras = [] := by
+        simp only [mkRegistry, Spec.make, normalizeSourceUrl, truthy, mkDep, bind, Except.bind, pure, Except.pure,
+          Bool.false_and, Bool.false_eq_true, if_false] at hm
+        cases hs' : c.toStr with
+        | error e => simp [hs'] at hm
+        | ok s' => simp only [hs'] at hm; cases hm; rfl
+      obtain ⟨d'', hset, b1, b2, b3, b4, b5, b6⟩ := setMarker_extra d0 x hx
+      rw [hset] at hd'
+      injection hd' with hd'
+      subst hd'
+      refine ⟨?_, ?_, ?_, ?_, by rw [b3, a5], by rw [b5, a6, hin]; rfl, b6, b4⟩
+      · show d''.spec.name = d.spec.name
+        rw [b1, a1, hname]
+      · show d''.spec.features = d.spec.features
+        rw [b1, a2, hfeats]
+      · rw [b2, a3, hkind]; rfl
+      · unfold sameSource; rw [b1]
+        constructor <;> simp [Spec.isSameSourceAs, a4, hsrc, truthy]
+
+/-- non-vacuity: the extra `test-x` -/
+example : ExtraName "test-x" :=
+  { tok := ⟨by decide, by intro c hc; simp at hc; rcases hc with rfl | rfl | rfl | rfl | rfl | rfl <;> (unfold tokChar; decide)⟩,
+    head := ⟨'t', "est-x".toList, rfl, by decide, by decide, by decide⟩,
+    plain := by intro c hc; simp at hc; rcases hc with rfl | rfl | rfl | rfl | rfl | rfl <;> (unfold gPlain; decide),
+    val := by intro c hc; simp at hc; rcases hc with rfl | rfl | rfl | rfl | rfl | rfl <;> decide,
+    canon := by decide }
 
 /-! ## the round trip on URL dependencies (no sub-directory, no marker) -/
 
